@@ -327,7 +327,13 @@ Error CodeHolder::attach(BaseEmitter* emitter) noexcept {
   }
 
   // Reserve the space now as we cannot fail after `on_attach()` succeeded.
-  ASMJIT_PROPAGATE(emitter->on_attach(*this));
+  Error err = emitter->on_attach(*this);
+  if (ASMJIT_UNLIKELY(err != Error::kOk)) {
+    // A failed `on_attach()` rolls back by calling `on_detach()`, which doesn't unlink the emitter from the
+    // CodeHolder - the emitter is not attached, so it must not reference this CodeHolder.
+    emitter->_code = nullptr;
+    return err;
+  }
 
   // Make sure CodeHolder <-> BaseEmitter are connected.
   ASMJIT_ASSERT(emitter->_code == this);
